@@ -23,8 +23,13 @@ package c15
 //   F  (views_test.go) histories whose alphabet holds the LIFETIME events of several simultaneously live views of one
 //      store (open / close snapshots, held iterators on the db / a snapshot / an indexed batch, indexed batches with a
 //      pending op, in every order) interleaved with writes; the store and every open view are read after every event.
-// Schedules are enumerated at operation granularity (every backend call is linearizable: memory takes
-// its RWMutex, pebble commits atomically), real goroutine races are not part of this check.
+//   G  (directops_test.go, with atomic_test.go) schedules BELOW operation granularity on the in-memory backend: every
+//      interleaving of the lock acquisitions of one write operation (batch commit; direct Put / Delete / DeleteRange /
+//      Update / Write on the store) with a consistent reader, an atomic batch or another direct call; the outcome must
+//      be that of some serial order of the two (serial orders executed on both Pebble backends).
+// Sections A-F enumerate schedules at operation granularity, which is sound only if every backend call is one
+// indivisible step (memory takes its RWMutex, pebble commits atomically) - that is what G checks for the memory
+// backend; accesses outside the lock (data races proper) are not part of this check.
 
 import (
 	"errors"
@@ -1464,14 +1469,23 @@ func TestCheck(t *testing.T) {
 		r.Violate(k, f.detail)
 	}
 	r.Set("divergent_runs_per_key", counts)
+	tG := time.Now()
+	if want("G") {
+		directAtomicity(r)
+	}
+	r.Set("G_seconds", time.Since(tG).Seconds())
+	tG = time.Now()
+	procs := runtime.GOMAXPROCS(1) // cooperative scheduler: see directAtomicity
 	batchAtomicity(r)
+	runtime.GOMAXPROCS(procs)
+	r.Set("atomicity_seconds", time.Since(tG).Seconds())
 	r.Assume = append(r.Assume,
 		"pebble runs on vfs.NewMem(); the on-disk format/FS layer is trusted",
 		"sections A-C: a backend state is a function of the abstract map: every representative is built by direct Puts (and re-used across ≤400 writes), not by replaying the BFS path; "+
 			"section E drops that assumption for histories of ≤3 (thorough: ≤4) write ops from the empty store with flush / flush+compact / reopen in the alphabet "+
 			"(its stores share one block cache per engine version and use a 64 KiB memtable arena; automatic background compactions are left on, so the LSM shape between maintenance operations is pebble's choice)",
-		"differential search: schedules are interleavings of whole interface calls; below that granularity only the commit of an in-memory batch is scheduled (atomic_test.go: every interleaving of the lock acquisitions of a committing writer with a consistent reader or a second writer, "+
-			"db/memory's RWMutex replaced by verif/mc/schedsync through a build overlay); unsynchronised accesses (data races proper) are out of scope",
+		"differential search: schedules are interleavings of whole interface calls; below that granularity every write operation of the in-memory backend is scheduled (atomic_test.go: commit of a batch; directops_test.go, section G: direct Put / Delete / DeleteRange / Update / Write on the store; "+
+			"every interleaving of the lock acquisitions of the operation with a consistent reader, an atomic batch or another direct call, db/memory's RWMutex replaced by verif/mc/schedsync through a build overlay); two threads over keys {a,b}; unsynchronised accesses (data races proper) are out of scope",
 		"relative moves (Next/Prev) on an exhausted iterator other than Prev-after-failed-Seek and the first move of a fresh iterator are outside the documented contract: recorded under outside_contract_divergences, never a violation",
 		"Batch.Size() is compared only for batches without DeleteRange",
 		"section F: view lifetimes are well nested (a snapshot / indexed batch is not closed or committed while an iterator created from it is open); "+
